@@ -3,6 +3,12 @@
 Every case is an edit history on a fresh hdl21.Module / hdl21.Bundle.  The implementation is observed after EVERY
 operation (harness/impl/c18.py); Coq (Corr/C18.v) replays the history through the specification (Spec/Namespace.v)
 and the model (Model/Namespace.v) and returns per case 0 | code + 10*(step+1).
+
+Strengthening round: WORLD histories (run_world_streams) - several Modules / Bundles sharing live objects that are created
+once and handed to containers again and again (same name, second name, another container, Module <-> Bundle), with
+`x.vis = ..` and `x.name = ..` in between; ALL containers are observed after every operation and Coq replays the history
+through Spec/C18World.v and Model/C18World.v (Corr/C18.v: chk_world). Coverage targets (W_TARGETS) are measured on what the
+implementation accepted and fail closed.
 """
 import json, itertools, time
 from . import core
